@@ -401,7 +401,7 @@ def catalogue(tier):
     add_split(1, 1, 2, shape=(2, 2, 2), atm=1, conv=1, angle=30.0, surf_cols=[0], preconvert=True, move=True, **R)
     add_split(1, 1, 2, shape=(2, 2, 2), atm=0, conv=0, angle=0.0, surf_cols=[0], preconvert=True, edits=[('split_column', 0, 0)], **R)
     add_split(1, 1, 2, shape=(2, 2, 2), atm=2, conv=2, angle=0.0, surf_cols=[1], edits=[('split_column', 3, 1)], **R)
-    add(shape=(2, 2, 2), atm=1, conv=3, angle=90.0, surf_cols=[], preconvert=True, edits=[('split_column', 1, 3), ('split_column', 2, 0)], **R)
+    add(shape=(2, 2, 2), atm=1, conv=3, angle=0.0, surf_cols=[], preconvert=True, edits=[('split_column', 1, 3), ('split_column', 2, 0)], **R)
     add(family='triquad', shape=2, atm=0, conv=0, order='dmplex', angle=0.0, use_map=False, surf_cols=[3], mixmode='stretch', edits=[('delete_column', 2)])
     add(shape=(2, 2, 3), atm=1, conv=0, angle=0.0, surf_cols=[0, 3], edits=[('delete_column', 1), ('delete_layer_bottom',)], **R)
     add(shape=(2, 2, 2), atm=0, conv=0, angle=0.0, surf_cols=[0, 3], raw_surface=True, **R)
